@@ -1,5 +1,5 @@
 """NL-PP: newline insertion inside preprocessor directives (src/newlines/add.cpp, setup_newline_add.cpp)."""
-TUS = ['chunk.cpp', 'unc_text.cpp', 'unicode.cpp', 'unc_ctype.cpp', 'newlines/one_liner.cpp', 'mark_change.cpp', '$BUILD/src/options.cpp']
+TUS = ['chunk.cpp', 'unc_text.cpp', 'unicode.cpp', 'unc_ctype.cpp', 'newlines/one_liner.cpp', 'mark_change.cpp', '$BUILD/src/options.cpp', '$HARNESS/chartable.cpp']
 OBLIGATIONS = [
     dict(id='NL-PP', harness='nlpp.cpp', entry='vp_nl_pp', extra_tus=TUS, havoc_options=True, noop=['_Z11encode_utf8iRSt9vp_vectorIhvE'],
          instances=lambda tier: [dict(name='pair', bound='two adjacent chunks with symbolic kind, levels and flags (preprocessor, one-liner, ...), newline added before the second or after the first',
